@@ -39,14 +39,14 @@ PROPS["C19"] = {
     "design_ref": "DESIGN.md section 5, C19",
 }
 PROPS["C16"] = {
-    "units": {"kani": ["c16_serialization", "c16_pack", "c10_bytes", "c16_arch_columns", "c16_zkir_arity"], "polyvc": ["c11_bls", "c16_zkir_routing"]},
+    "units": {"kani": ["c16_serialization", "c16_pack", "c10_bytes", "c16_arch_columns", "c16_zkir_arity", "c16_zkir_into_bytes"], "polyvc": ["c11_bls", "c16_zkir_routing", "c16_vk_read"]},
     "scope": "pure-Rust byte decoders: the automaton Serialize::deserialize family, pack/unpack of selector bytes, and (shared with C10) the canonical-field-encoding decoders",
     "not_decided": ["VerifyingKey::read_from_cs, bincode itself, the rest of ZkStdLib::configure, ParamsKZG::read_custom: generic / iterator / FFI code", "that Instruction::check_arity accepts only what the off-circuit / in-circuit IR parsers can process without panicking",
-                    "the fixed-commitment-count panic described in the property text (verifier.rs indexes vk.fixed_commitments) is NOT reachable by this family; the out-of-range column-count one is (and was repaired)",
+                    "the verifier itself (verifier.rs) is not under contract: only the invariant it relies on when indexing vk.fixed_commitments is established at decode time (both panics named in the property text were reproduced and repaired)", "IR compile panics that need whole-program reasoning (Jubjub constants without the jubjub chip) or a policy bound (IntoBytes allocation)",
                     "G1/G2 point decoders (blst)"],
     "trusted_base": [],
     "assumptions": [],
-    "claim": "Proof (Kani, bounded only in buffer length) that the pure-Rust byte decoders are total and canonical: every Serialize::deserialize instance returns Ok/Err for every buffer, advances by exactly the encoded size and never allocates from an unchecked length; pack/unpack are exact inverses on their documented domain; field decoders accept exactly the canonical encodings (see C10); every public checked point decoder of G1/G2 routes through the on-curve / subgroup checks (see C11); the architecture-descriptor decoder only returns descriptors on which ZkStdLib::configure does not panic. Added: the three ZKIR program decoders (read_relation / read / from_instructions) return Ok exactly when decoding succeeds AND every instruction passes check_arity, from_instructions is the only constructor of ZkirRelation, and Arity::check is the documented predicate (full usize domain). The body of VerifyingKey::read_from_cs (e.g. a fixed-commitment count that disagrees with the circuit), ParamsKZG::read_custom, bincode / serde_json themselves and whether check_arity's table is what the IR parsers need are NOT decided.",
+    "claim": "Proof (Kani, bounded only in buffer length) that the pure-Rust byte decoders are total and canonical: every Serialize::deserialize instance returns Ok/Err for every buffer, advances by exactly the encoded size and never allocates from an unchecked length; pack/unpack are exact inverses on their documented domain; field decoders accept exactly the canonical encodings (see C10); every public checked point decoder of G1/G2 routes through the on-curve / subgroup checks (see C11); the architecture-descriptor decoder only returns descriptors on which ZkStdLib::configure does not panic. Added: VerifyingKey::read_from_cs establishes the precondition of VerifyingKey::from_parts -- one fixed commitment per fixed column, the invariant the verifier indexes by (PolyVC imperative-decoder subset; callee contracts assumed); the length arithmetic of the IR operation IntoBytes and the zero-modulus guard of ModExp; the arity table covers every index / output count the two IR parsers use; the three ZKIR program decoders (read_relation / read / from_instructions) return Ok exactly when decoding succeeds AND every instruction passes check_arity, from_instructions is the only constructor of ZkirRelation, and Arity::check is the documented predicate (full usize domain). The body of VerifyingKey::read_from_cs (e.g. a fixed-commitment count that disagrees with the circuit), ParamsKZG::read_custom, bincode / serde_json themselves and whether check_arity's table is what the IR parsers need are NOT decided.",
     "level_note": "Kani/CBMC; buffer items are bounded (length <= 24 bytes, content and length symbolic) and reported under `bounded`, never counted as proved; pack/unpack and the field decoders are full-domain. format! on error paths is stubbed.",
     "technique": "Kani harness-form contracts on the real decoders (contract-based deductive verification; bounded stand-in for buffer length)",
     "design_ref": "DESIGN.md section 5, C16",
